@@ -1669,7 +1669,10 @@ fn gen_case(rng: &mut Rng, long: bool) -> Vec<Op> {
     if rng.chance(25) {
         ops.push(Op::Trait(1));
     }
-    let mut uni: Vec<u32> = GOOD.iter().copied().filter(|_| rng.chance(30)).collect();
+    // one case in seven uses (nearly) every lawful type and registers many of them: tables with
+    // more than a handful of entries
+    let wide = rng.chance(14);
+    let mut uni: Vec<u32> = GOOD.iter().copied().filter(|_| rng.chance(if wide { 90 } else { 30 })).collect();
     if uni.len() < 2 {
         uni = vec![0, 3, 5];
     }
@@ -1697,7 +1700,7 @@ fn gen_case(rng: &mut Rng, long: bool) -> Vec<Op> {
     let rounds = 1 + rng.below(3);
     for round in 0..rounds {
         let mut muts = vec![];
-        let nreg = if round == 0 { rng.below(10) } else { rng.below(4) };
+        let nreg = if round == 0 { if wide { 12 + rng.below(14) } else { rng.below(10) } } else { rng.below(4) };
         for _ in 0..nreg {
             muts.push(Op::Reg(*rng.pick(&objs)));
         }
